@@ -246,7 +246,8 @@ unsafe impl<S: BuildHasher + Clone + 'static> Sync for ExpirationMap<S> {}
 impl Time {
     /// (ttl in nanoseconds, creation instant in nanoseconds since the epoch)
     pub fn verif_parts(&self) -> (u64, u64) {
-        (self.d.as_nanos() as u64, self.created_at.nanos())
+        // a TTL beyond 2^64 ns (Duration::MAX) reads as u64::MAX
+        (u64::try_from(self.d.as_nanos()).unwrap_or(u64::MAX), self.created_at.nanos())
     }
 }
 
